@@ -1087,10 +1087,24 @@ fn builtin_sort(args: Vec<Rc<Object>>) -> Result<Rc<Object>, String> {
     let obj = args[0].as_ref();
     match obj {
         Object::Arr(arr) => {
+            // Sorting needs a total order: every pair of elements must be comparable
+            {
+                let elements = arr.elements.borrow();
+                for pair in elements.windows(2) {
+                    if pair[0].partial_cmp(&pair[1]).is_none() {
+                        return Err(String::from("array elements are not comparable"));
+                    }
+                }
+                if let Some(first) = elements.first() {
+                    if first.partial_cmp(first).is_none() {
+                        return Err(String::from("array elements are not comparable"));
+                    }
+                }
+            }
             arr.elements.borrow_mut().sort();
             Ok(Rc::clone(&args[0]))
         }
-        _ => Ok(Rc::new(Object::Null)),
+        _ => Err(String::from("argument should be an array")),
     }
 }
 
@@ -1104,7 +1118,7 @@ fn builtin_chars(args: Vec<Rc<Object>>) -> Result<Rc<Object>, String> {
         Object::Str(s) => Ok(Rc::new(Object::Arr(Rc::new(Array::new(
             s.chars().map(|c| Rc::new(Object::Char(c))).collect(),
         ))))),
-        _ => Ok(Rc::new(Object::Null)),
+        _ => Err(String::from("argument should be a string")),
     }
 }
 
@@ -1142,7 +1156,7 @@ fn builtin_join(args: Vec<Rc<Object>>) -> Result<Rc<Object>, String> {
             }
             Ok(Rc::new(Object::Str(s)))
         }
-        _ => Ok(Rc::new(Object::Null)),
+        _ => Err(String::from("first argument should be an array of chars")),
     }
 }
 
